@@ -137,12 +137,12 @@ Proof.
                Ord.registered := []; Ord.cache := []; Ord.pc := Ord.Idle; Ord.out := [] |}).
   assert (HR0 : R s0 a0).
   { constructor; cbn; auto; try congruence.
-    - intro u. destruct (H0 u) as (-> & _). reflexivity.
+    - intro u. destruct (H0 u) as ((v & ->) & _). reflexivity.
     - now rewrite Hpc.
     - now rewrite Hpl. }
   assert (B0 : Big K s0).
   { split; [|split].
-    - split; [intro u; destruct (H0 u) as (-> & -> & ->); apply TInv_thr0|intros u x; destruct (H0 u) as (-> & _); discriminate].
+    - split; [intro u; destruct (H0 u) as ((v & ->) & -> & ->); apply TInv_fresh|intros u x; destruct (H0 u) as ((v & ->) & _); discriminate].
     - constructor; rewrite ?Hrr, ?Hcc, ?Hi; cbn; [constructor|reflexivity|intros ? []].
     - intros _. congruence. }
   destruct (sim_run K Hg Hr Hc ops s0 a0 B0 HR0 (Ord.inv_init_at (c_grace K) (clock s0) Hgc) Hp Hw) as (a' & HR' & I' & _).
